@@ -181,7 +181,7 @@ func (r *YieldReader) ReadPacketConn(conn net.PacketConn, timeout time.Duration)
 // framing code (metrics, a size policy) and does not hand on to the reader it was given. It sets no
 // deadlines - those are the server's business. Datagrams are left to the reader it wraps.
 type OwnReader struct {
-	K          *kernel.K
+	K *kernel.K
 	dns.Reader
 }
 
